@@ -1,4 +1,50 @@
-From Mammoth Require Import Html Writer WriterSpec.
-Example c02_placeholder : write_html [] = [].
-Proof. reflexivity. Qed.
-Print Assumptions c02_placeholder.
+(* C02 — HTML output is well-formed and document strings never become markup (writer level). *)
+From Mammoth Require Import Html Writer Escape WriterSpec WriterFacts.
+Local Open Scope N_scope.
+
+(* the escape table read from the source is exactly & < > " with their four entities *)
+Theorem C02_escape_table : escape_table = [(34, e_quot); (38, e_amp); (60, e_lt); (62, e_gt)].
+Proof. exact escape_table_spec. Qed.
+
+(* < > " never occur in escaped text or attribute values; every & starts one of the four entities *)
+Theorem C02_no_raw_specials (s : str) (c : N) : In c (escape s) -> c <> 60 /\ c <> 62 /\ c <> 34.
+Proof. exact (escape_no_specials s c). Qed.
+Theorem C02_ampersands_are_entities (s : str) : amps_ok (escape s) = true.
+Proof. exact (escape_amps_ok s). Qed.
+
+(* every document string decodes back to exactly the original *)
+Theorem C02_decode_escape (s : str) : decode_entities (escape s) = s.
+Proof. exact (decode_escape s). Qed.
+
+(* start and end tags balance and nest *)
+Theorem C02_balanced (ns : list (node str)) : balanced [] (events ns) = true.
+Proof. exact (events_balanced ns). Qed.
+
+(* THE codec round trip, for every forest with plain tag and attribute names: an independent reader
+   (which rejects raw < > in text, raw quotes, stray ampersands, unquoted or malformed attributes)
+   recovers from the written string exactly the forest's events: names, double-quoted attribute
+   values decoded to the originals, text decoded to the original, childless void elements self-closed *)
+Theorem C02_lex_write (ns : list (node str)) :
+  forallb plain_node ns = true -> lex_html (write_html ns) = Some (norm_events (events ns)).
+Proof. exact (lex_write ns). Qed.
+
+(* substituting document strings (text, attribute values) changes no tag, attribute name or nesting *)
+Theorem C02_skeleton (f : str -> str) (ns : list (node str)) :
+  map tok_skel (events (map (map_strings f) ns)) = map tok_skel (events ns).
+Proof. exact (events_skeleton f ns). Qed.
+
+Example C02_witness :
+  let a := mkTag [97] [] [([104;114;101;102], [34;60;38;62])] true None in
+  let br := mkTag [98;114] [] [] false None in
+  forallb plain_node [Elem a [Text [60;38]; Elem br []]] = true /\
+  lex_html (write_html [Elem a [Text [60;38]; Elem br []]])
+  = Some [TStart [97] [([104;114;101;102], [34;60;38;62])]; TText [60;38]; TSelf [98;114] []; TEnd [97]].
+Proof. vm_compute. split; reflexivity. Qed.
+
+Print Assumptions C02_escape_table.
+Print Assumptions C02_no_raw_specials.
+Print Assumptions C02_ampersands_are_entities.
+Print Assumptions C02_decode_escape.
+Print Assumptions C02_balanced.
+Print Assumptions C02_lex_write.
+Print Assumptions C02_skeleton.
